@@ -203,25 +203,25 @@ CHECKS = {
 
 # what the spaces gained after the three rounds of independently seeded changes (DESIGN.md section 9.0); appended to the level text
 EXT = {
-    "C01": "Also explored: min_freq_mod in {None, 0.125, 0.25, 0, per-table adaptive thresholds}, dev samples with an enlarged missing cell, verbose=True, non-default row index.",
-    "C02": "Also explored: thresholds within 0.5% of every cell frequency, explicit min_freq_mod=0, verbose=True, non-default row index.",
-    "C03": "Also explored: numeric-coded ordinal features (ascending/descending, int/float, codes >= 1e6), MulticlassCarver, categorical features with a user vocabulary, fractional continuous targets, probe frames under a non-default index.",
-    "C04": "Also explored: scales needing > 8 significant digits and > 10 decimals, the oracle re-applied after one update_discretizer edit and after summary()/history()/to_json(), non-default index, rebuilt vs fitted object.",
-    "C05": "Also explored: falsy unseen values ('' and 0), user-chosen sentinels, single-group columns, two features sharing their vocabulary, objects edited with update_discretizer before the probe.",
-    "C06": "Also explored: round trip after one edit of each mode, frames lacking a column, multi-feature carvers with a feature dropped for every class, carvers fitted with a dev sample.",
-    "C07": "Also explored: every ordered pair of 25 row types vs the rows alone (two features sharing their vocabulary), ChainedDiscretizer(drop) over all row subsets, a column holding one +inf and one -inf.",
-    "C08": "Also explored: user-chosen str_nan/str_default, two and three id-like companions dropped in the same fit.",
-    "C09": "Also explored: k=4,5 ordered tables, the comb family (2-3 over-represented values between runs of single rows), scales with a cut exactly at 0.",
-    "C10": "Also explored: three id-like columns, a co-missing block, every subset through the n_jobs=2 path, shared vocabulary + new frame, numeric ordinal codes, MulticlassCarver with names colliding with per-class copies, int64 magnitudes above 2**53 next to floats.",
-    "C11": "Also explored: maps x+2^20, 2^-30*x, shifts putting a cut at 0 or across a decade, single-row values between frequent values, categorical rate ties x min_freq_mod.",
-    "C12": "Also explored: user-chosen sentinels, fresh argument objects per estimator, a new frame, re-transform of an output frame, duplicated index labels.",
-    "C13": "Also explored: a second BFS with a raw float NaN leader, update() that splits a group.",
-    "C14": "Also explored: two-measure lists (quantitative and qualitative) with the chain kept alive, Pearson filter, outlier measures.",
-    "C15": "Also explored: colsample<1 under every shuffle outcome (single copy of the target always returned), rows of X permuted alone, the frame replicated 150x, outlier measures with values exactly on a Tukey fence.",
-    "C16": "Also explored: summary() re-checked after one edit, one interval per quantitative row, two features fitted together with history() called twice.",
-    "C17": "Also explored: observers (summary/transform/to_json) before every edit, thresholds replaced by lower values, leaders renamed.",
-    "C18": "Also explored: two distinct unknown values, data holding intermediate-node labels, numeric columns under a string hierarchy, the empty string as unknown value, never-observed leaves.",
-    "C19": "Also explored: category / pandas string dtypes, falsy sort_by values, rare-category frames, feature sets without ordinal features, refit after a first fit that dropped every feature.",
+    "C01": "Also explored: min_freq_mod in {None, 0.125, 0.25, 0, per-table adaptive thresholds}, dev samples with an enlarged missing cell, verbose=True, non-default row index. Round 4: cut point exactly at 0 next to missing values.",
+    "C02": "Also explored: thresholds within 0.5% of every cell frequency, explicit min_freq_mod=0, verbose=True, non-default row index. Round 4: cut point exactly at 0 next to a missing cell too rare to stand alone.",
+    "C03": "Also explored: numeric-coded ordinal features (ascending/descending, int/float, codes >= 1e6), MulticlassCarver, categorical features with a user vocabulary, fractional continuous targets, probe frames under a non-default index. Round 4: the oracle re-applied after summary()/to_json()/history() and after a 'replace' edit; unusual dtypes (float32, int8, uint8, Int64, -0.0).",
+    "C04": "Also explored: scales needing > 8 significant digits and > 10 decimals, the oracle re-applied after one update_discretizer edit and after summary()/history()/to_json(), non-default index, rebuilt vs fitted object. Round 4: oracle after a 'replace' edit; scales 1e-11*i and 1+i*2^-33 incl. ContinuousDiscretizer.",
+    "C05": "Also explored: falsy unseen values ('' and 0), user-chosen sentinels, single-group columns, two features sharing their vocabulary, objects edited with update_discretizer before the probe. Round 4: frames built from records whose numeric field is None (object column).",
+    "C06": "Also explored: round trip after one edit of each mode, frames lacking a column, multi-feature carvers with a feature dropped for every class, carvers fitted with a dev sample. Round 4: int64 values above 2**53.",
+    "C07": "Also explored: every ordered pair of 25 row types vs the rows alone (two features sharing their vocabulary), ChainedDiscretizer(drop) over all row subsets, a column holding one +inf and one -inf. Round 4: fitted state compared around the first transform; a declared id-like feature with missing values that every fit drops.",
+    "C08": "Also explored: user-chosen str_nan/str_default, two and three id-like companions dropped in the same fit. Round 4: no empty features_casting entry; transform of a frame without a dropped feature's column; unusual dtypes.",
+    "C09": "Also explored: k=4,5 ordered tables, the comb family (2-3 over-represented values between runs of single rows), scales with a cut exactly at 0. Round 4: unusual dtypes (float32, int8, uint8, Int64, -0.0).",
+    "C10": "Also explored: three id-like columns, a co-missing block, every subset through the n_jobs=2 path, shared vocabulary + new frame, numeric ordinal codes, MulticlassCarver with names colliding with per-class copies, int64 magnitudes above 2**53 next to floats. Round 4: stale values_orders of an earlier fit for quantitative features; string / shuffled row labels sequentially and through the pools.",
+    "C11": "Also explored: maps x+2^20, 2^-30*x, shifts putting a cut at 0 or across a decade, single-row values between frequent values, categorical rate ties x min_freq_mod. Round 4: continuous targets in tenths with equal group means; dev-sample states whose cut-point labels sort differently once rescaled.",
+    "C12": "Also explored: user-chosen sentinels, fresh argument objects per estimator, a new frame, re-transform of an output frame, duplicated index labels. Round 4: a categorical feature handed over with a previous grouping.",
+    "C13": "Also explored: a second BFS with a raw float NaN leader, update() that splits a group. Round 4: update() with two and three new leaders; a second object built from first.content; thorough = 7-value universe at depth 3 + 4-value universe at depth 4.",
+    "C14": "Also explored: two-measure lists (quantitative and qualitative) with the chain kept alive, Pearson filter, outlier measures. Round 4: clusters first > second > shadow-of-first for qualitative and quantitative features in every column order.",
+    "C15": "Also explored: colsample<1 under every shuffle outcome (single copy of the target always returned), rows of X permuted alone, the frame replicated 150x, outlier measures with values exactly on a Tukey fence. Round 4: rescaling by 2^-40 and 2^40; a column with a z-score outlier.",
+    "C16": "Also explored: summary() re-checked after one edit, one interval per quantitative row, two features fitted together with history() called twice. Round 4: summary() after the missing-value modality was renamed into a category.",
+    "C17": "Also explored: observers (summary/transform/to_json) before every edit, thresholds replaced by lower values, leaders renamed. Round 4: mode 'replace' with nan for categorical features; missing value spelled None / float32 nan / pandas.NA.",
+    "C18": "Also explored: two distinct unknown values, data holding intermediate-node labels, numeric columns under a string hierarchy, the empty string as unknown value, never-observed leaves. Round 4: repeated index labels.",
+    "C19": "Also explored: category / pandas string dtypes, falsy sort_by values, rare-category frames, feature sets without ordinal features, refit after a first fit that dropped every feature. Round 4: refit with a sample holding missing values and a new category.",
 }
 
 NOT_BUILT = "check not built yet (work in progress, see DESIGN.md §7 for the order)"
